@@ -31,8 +31,8 @@ claim("C02", "Coq proof (buffer-bound invariant, regenerated array extents, life
       "Proof: the CAB input buffer never holds more than 65535 (salvage) / 38912 (strict) bytes after any accepted sequence of block parts and that plus the Quantum trailer byte fits the array extent regenerated from cab.h; all Huffman table and code-length array extents regenerated from the headers satisfy the builders' needs; the SZDD/LZSS port never uses a released handle or frees twice under any host. Everything else (window indices, CHM chunk parsing, Huffman table construction, KWAJ/OAB paths) is covered by the sanitizer sweep of the real library only - partial, as DESIGN.md section 4/C02 states.",
       NOTE, "4/C02")
 
-claim("C07", "Coq proof (output accounting of the frame loop with an abstract per-frame decoder; and of the real MSZIP and LZX ports with no abstraction) + byte-count oracle on every extract call of the sweep",
-      "Proof: for the accounting shared by lzxd/qtmd/mszipd/noned_decompress (flush stored-up bytes, then min(requested, produced) per frame, error if bytes remain) and any sequence of per-frame outcomes: bytes written <= requested, OK => exactly requested, fewer => non-OK; lifted through the skip-then-extract pair; the same three facts for mszipd_decompress and lzxd_decompress as ported statement by statement (Model/Mszip.v, Model/Lzx.v), for every stream state, input and call sequence. The tie of this abstract loop to the four C loops is by the LZX/Quantum/MSZIP ports' correspondence (C01) and by the oracle that counts bytes accepted by write() against the declared size for every extract call of the sweep (CAB strict/salvage, CHM, OAB).",
+claim("C07", "Coq proof (output accounting of the frame loop with an abstract per-frame decoder; and of the real MSZIP, LZX and Quantum ports with no abstraction) + byte-count oracle on every extract call of the sweep",
+      "Proof: for the accounting shared by lzxd/qtmd/mszipd/noned_decompress (flush stored-up bytes, then min(requested, produced) per frame, error if bytes remain) and any sequence of per-frame outcomes: bytes written <= requested, OK => exactly requested, fewer => non-OK; lifted through the skip-then-extract pair; the same three facts for mszipd_decompress, lzxd_decompress and qtmd_decompress as ported statement by statement (Model/Mszip.v, Model/Lzx.v, Model/Qtm.v), for every stream state, input and call sequence. The tie of this abstract loop to the four C loops is by the LZX/Quantum/MSZIP ports' correspondence (C01) and by the oracle that counts bytes accepted by write() against the declared size for every extract call of the sweep (CAB strict/salvage, CHM, OAB).",
       NOTE, "4/C07")
 
 claim("C10", "Coq proof (host-failure tracking in the monitor semantics, for every host) on the SZDD/LZSS and KWAJ ports + L2 correspondence + single-fault sweep of all front ends vs the failure-free run",
